@@ -689,7 +689,9 @@ fn setup_space_list_check(
 
                 let is_value = left_node.definition.is_value_like();
                 let is_group_value = left_node.definition.is_group_like() && last_left != current_group;
-                if is_value || is_group_value {
+                // a suffix operator completes an operand just like a value does
+                let is_suffix = left_node.secondary_definition == SecondaryDefinition::UnarySuffix;
+                if is_value || is_group_value || is_suffix {
                     trace!(
                         "Value-like definition {:?} found. Will check next token for value-like to make list",
                         left_node.definition
